@@ -653,8 +653,8 @@ func (V *Verifier) checkExit(fc *FuncCtx, s *State, vals []Val, fi *FuncInfo, is
 	for _, n := range hn {
 		cur := s.heap[n]
 		init := "H_" + sanitize(n) + "_0"
-		if cur == init || otherGroup[n] {
-			continue
+		if cur == init || otherGroup[n] || strings.Contains(n, "!.$") {
+			continue // (ghost fields are not framed)
 		}
 		srt := fc.heapSorts[n]
 		two := strings.HasPrefix(srt, "(Array Int (Array Int")
@@ -862,9 +862,10 @@ func (st *State) execGhost(c *Clause, pos token.Pos) {
 		if v.K == KNil {
 			val = "0"
 		}
-		h := st.heapGet(gh, "(Array Int Int)")
+		srt := ghostFieldSort(structT, c.List[0].Text)
+		h := st.heapGet(gh, srt)
 		st.noteWrite(gh, base.S)
-		st.heapSet(gh, "(Array Int Int)", sStore(h, base.S, val), base.S)
+		st.heapSet(gh, srt, sStore(h, base.S, val), base.S)
 		return
 	}
 	switch v.K {
